@@ -229,6 +229,9 @@ func init() {
 				return
 			}
 			w.disk(rEntryNames[re], "none", "-", fmt.Sprint(err == nil))
+			if we != 0 {
+				scribble(data) // what ToBytes/MarshalBinary returned is the caller's: it is recycled now
+			}
 			var regions []int
 			if ri >= 0 {
 				regions = []int{ri}
@@ -788,6 +791,7 @@ func execFreeze(w *World, st *Step) {
 		return
 	}
 	w.setResult(st.S[0], dst, src.M.Clone(), []int{ri}, "frozenview")
+	scribble(b1) // what Freeze returned is the caller's (the view is over a copy in a mapped region)
 	o := w.B[st.S[0]]
 	o.ZeroCopy, o.Frozen = true, true
 	var ve error
